@@ -10,6 +10,7 @@ import (
 	"golang.org/x/tools/go/ssa"
 
 	"verif/checker/internal/ir"
+	"verif/checker/internal/report"
 )
 
 // Rule family B: process terminators in library code.
@@ -695,4 +696,203 @@ func (c *Ctx) initOnly(fn *ssa.Function, seen map[*ssa.Function]bool, depth int)
 		}
 	}
 	return true
+}
+
+// ruleAssert (B.assert): x.(T) without the comma-ok form panics when the
+// dynamic type is not T. Where the interface value comes out of a standard
+// library parser (a PKCS#8 key, an optional header of a PE file) the input
+// chooses the dynamic type.
+func (c *Ctx) ruleAssert(rule string, in func(*ssa.Function) bool) int {
+	n := 0
+	counts := map[string]int{}
+	for _, fn := range c.P.LibFunctions() {
+		if in != nil && !in(fn) {
+			continue
+		}
+		fn := fn
+		instrsOf(fn, func(i ssa.Instruction) {
+			ta, ok := i.(*ssa.TypeAssert)
+			if !ok || ta.CommaOk {
+				return
+			}
+			n++
+			key := ordinalKey(counts, name(fn)+":assert")
+			construct := strings.TrimPrefix(key, name(fn)+":")
+			foreign, mismatch, param := "", "", false
+			makes := 0
+			for v := range c.sliceOf(ta.X) {
+				switch x := v.(type) {
+				case *ssa.MakeInterface:
+					makes++
+					if !types.Identical(x.X.Type(), ta.AssertedType) {
+						if _, isIface := ta.AssertedType.Underlying().(*types.Interface); !isIface {
+							mismatch = x.X.Type().String()
+						}
+					}
+				case *ssa.Call:
+					if _, isIface := x.Type().Underlying().(*types.Interface); !isIface {
+						if tp, isT := x.Type().(*types.Tuple); !isT || tp.Len() == 0 {
+							continue
+						} else if _, isI := tp.At(0).Type().Underlying().(*types.Interface); !isI {
+							continue
+						}
+					}
+					id := ir.CallID(x)
+					callee := ir.Callee(x)
+					if id == "sync.Pool.Get" || callee != nil && c.P.InLib(callee) {
+						continue
+					}
+					foreign = id
+				case *ssa.FieldAddr:
+					if f := ir.FieldOf(x); f != nil && f.Pkg() != nil && !strings.HasPrefix(f.Pkg().Path(), M) {
+						if _, isIface := f.Type().Underlying().(*types.Interface); isIface {
+							foreign = "field " + ir.FieldID(x)
+						}
+					}
+				case *ssa.Parameter:
+					if _, isIface := x.Type().Underlying().(*types.Interface); isIface {
+						param = true
+					}
+				}
+			}
+			what := "a type assertion without the comma-ok form is made only on values whose dynamic type the code fixes"
+			switch {
+			case foreign != "":
+				c.R.Violf(rule, name(fn), construct, c.IPos(i), what, "the value asserted to be "+ta.AssertedType.String()+" comes from "+foreign+": the input selects its dynamic type, any other type panics (interface conversion)")
+			case mismatch != "":
+				c.R.Violf(rule, name(fn), construct, c.IPos(i), what, "a value of type "+mismatch+" can reach the assertion to "+ta.AssertedType.String())
+			case param && makes == 0:
+				c.R.Infof(rule, name(fn), construct, c.IPos(i), "not decided for this shape: the asserted value is a caller-supplied interface")
+			default:
+				c.R.Okf(rule, name(fn), construct, c.IPos(i), what)
+			}
+		})
+	}
+	return n
+}
+
+// ruleHashAvailable (B.hash): crypto.Hash.New / Size panic for a value that is
+// not a linked hash function (0, an unknown identifier). A hash chosen from
+// input (a lookup by OID that falls back to the zero value) needs a test of
+// the value before it is used.
+func (c *Ctx) ruleHashAvailable(rule string, in func(*ssa.Function) bool) int {
+	n := 0
+	counts := map[string]int{}
+	for _, fn := range c.P.LibFunctions() {
+		if in != nil && !in(fn) {
+			continue
+		}
+		fn := fn
+		instrsOf(fn, func(i ssa.Instruction) {
+			call, ok := i.(*ssa.Call)
+			if !ok {
+				return
+			}
+			id := ir.CallID(call)
+			if id != "crypto.Hash.New" && id != "crypto.Hash.Size" {
+				return
+			}
+			recv := ir.StripConv(ir.CallArgs(call)[0])
+			if _, isK := recv.(*ssa.Const); isK {
+				return
+			}
+			if _, isP := recv.(*ssa.Parameter); isP {
+				return // the caller names the algorithm
+			}
+			n++
+			key := ordinalKey(counts, name(fn)+":hash")
+			construct := strings.TrimPrefix(key, name(fn)+":")
+			// sources of the value
+			zero, chosen := false, false
+			srcs := c.sliceOf(recv)
+			srcs[recv] = true
+			for v := range srcs {
+				switch x := v.(type) {
+				case *ssa.Const:
+					if ir.NamedTypeID(x.Type()) == "crypto.Hash" && isZeroConst(x) {
+						zero = true
+					}
+				case *ssa.Call:
+					if callee := ir.Callee(x); callee != nil && c.P.InLib(callee) && ir.NamedTypeID(callee.Signature.Results().At(0).Type()) == "crypto.Hash" {
+						chosen = true
+						for _, r := range ir.Returns(callee) {
+							if k, isK := r.Results[0].(*ssa.Const); isK && isZeroConst(k) {
+								zero = true
+							}
+						}
+					}
+				case *ssa.Lookup, *ssa.Index, *ssa.IndexAddr:
+					chosen = true
+				}
+			}
+			if !chosen && !zero {
+				c.R.Okf(rule, name(fn), construct, c.IPos(call), "the hash function is fixed by the code or named by the caller")
+				return
+			}
+			// a dominating test of the value
+			guarded := false
+			for _, ce := range ir.DominatingConds(fn, call.Block()) {
+				for v := range c.sliceOf(ce.Cond) {
+					if v == recv {
+						guarded = true
+					}
+					if cc, isC := v.(*ssa.Call); isC && ir.CallID(cc) == "crypto.Hash.Available" {
+						guarded = true
+					}
+				}
+			}
+			if guarded {
+				c.R.Okf(rule, name(fn), construct, c.IPos(call), "a hash function selected from input is tested before New/Size is called on it")
+				return
+			}
+			c.R.Add(report.Obligation{Rule: rule, Key: rule + "@" + name(fn) + ":" + construct, Func: name(fn), Pos: c.IPos(call), Status: report.Violation, Hard: zero,
+				What:   "a hash function selected from input is tested before New/Size is called on it",
+				Detail: "the crypto.Hash on which " + strings.TrimPrefix(id, "crypto.Hash.") + " is called is looked up from input and may be the zero value (unknown identifier): crypto.Hash panics for an unavailable function"})
+		})
+	}
+	return n
+}
+
+// ruleNoMaterialise (T1.stream): the stream of hashed bytes is the
+// concatenation of the sections the headers declare; sections may overlap, so
+// its length is not bounded by the size of the file. It is consumed by
+// streaming (io.Copy into a hash); reading it whole into memory lets a small
+// file demand memory proportional to sections x size.
+func (c *Ctx) ruleNoMaterialise(rule string, in func(*ssa.Function) bool) int {
+	n := 0
+	counts := map[string]int{}
+	field := M + "/authenticode.PECOFFBinary.hashContent"
+	for _, fn := range c.P.LibFunctions() {
+		if in != nil && !in(fn) {
+			continue
+		}
+		fn := fn
+		instrsOf(fn, func(i ssa.Instruction) {
+			call, ok := i.(*ssa.Call)
+			if !ok {
+				return
+			}
+			id := ir.CallID(call)
+			args := ir.CallArgs(call)
+			var src ssa.Value
+			switch id {
+			case "io.ReadAll":
+				src = args[0]
+			case "bytes.Buffer.ReadFrom":
+				src = args[1]
+			case "io.Copy":
+				if ir.NamedTypeID(ir.StripIface(args[0]).Type()) == "bytes.Buffer" {
+					src = args[1]
+				}
+			}
+			if src == nil || !ir.HasField(c.sliceOf(src), field) {
+				return
+			}
+			n++
+			key := ordinalKey(counts, name(fn)+":materialise")
+			c.R.Violf(rule, name(fn), strings.TrimPrefix(key, name(fn)+":"), c.IPos(call), "the hashed stream is consumed by streaming, never read whole into memory",
+				id+" reads the whole hashed stream into memory: its length is the sum of the section sizes the headers declare (sections may overlap), not the size of the file")
+		})
+	}
+	return n
 }
